@@ -3,6 +3,7 @@ package props
 import (
 	"fmt"
 	"os"
+	"path/filepath"
 	"strings"
 	"testing"
 	"time"
@@ -215,7 +216,9 @@ func (cr *crashRun) checkCut(k, torn int, st *Stats) (excluded bool) {
 		case "remove":
 			delete(existing, rec.Path)
 		}
-		if target != "" && !strings.HasSuffix(target, "schema.json") && !strings.HasSuffix(target, ".tmp") {
+		// (temporary files are dot-prefixed AND end in .tmp; an object file may end in .tmp by its extension)
+		isTemp := strings.HasSuffix(target, ".tmp") && strings.HasPrefix(filepath.Base(target), ".")
+		if target != "" && !strings.HasSuffix(target, "schema.json") && !isTemp {
 			if started && atStart[target] {
 				updated = true
 			}
@@ -281,7 +284,7 @@ func (cr *crashRun) checkCut(k, torn int, st *Stats) (excluded bool) {
 	// back, and decoded from disk by the walker
 	leftovers := 0
 	for _, name := range w.Others {
-		if strings.HasSuffix(name, ".tmp") || strings.HasPrefix(name, ".") {
+		if strings.HasPrefix(name, ".") {
 			leftovers++
 		}
 	}
